@@ -135,6 +135,20 @@ void h_fromHex()
   delete[] (char*)data;
 }
 
+// -------------------------------------------------------------- String::fromHex, 2 input bytes (bounded, no loop contract:
+// independent of fromHex's local names and helper functions)
+void h_fromHex_bounded()
+{
+  NV_STRING_STATICS();
+  NV_INPUT_ARR(byte, src, 2);
+  g_sbuf = 0; g_scap = 0; g_slen = 0;
+  String r = String::fromHex(src, 2);
+  bool ok = g_slen == 4;
+  for(int i = 0; i < 2; i++) ok = ok && g_sbuf[2 * i] == HEX[src[i] / 16] && g_sbuf[2 * i + 1] == HEX[src[i] % 16];
+  NV_CHECK(ok, "fromHex of 2 bytes == their 4 upper-case hex digits");
+  NV_REACH("fromHex_bounded.return");
+}
+
 // -------------------------------------------------------------- String::fromBase64: arbitrary input
 void h_fromBase64_safety()
 {
